@@ -57,7 +57,12 @@ type CaseSpec struct {
 	// 0 = decimal numbers. The subject carries the index either way.
 	EvStyle int  `json:"evstyle,omitempty"`
 	Drop    bool `json:"drop"`
-	SubLen  int  `json:"sublen,omitempty"` // length of a long namespace to Subscribe to (0 = none)
+	// DropMid > 0: the server drops the connection while that many requests are
+	// pending (the first of them after a timeout pre-response when DropMidPre);
+	// Close is not called: each must complete exactly once by its deadline
+	DropMid    int  `json:"dropmid,omitempty"`
+	DropMidPre bool `json:"dropmidpre,omitempty"`
+	SubLen     int  `json:"sublen,omitempty"` // length of a long namespace to Subscribe to (0 = none)
 	// BusyUnsub > 0: that many events are queued inside the adapter behind a
 	// callback that blocks the listener; the subscription is then unsubscribed
 	BusyUnsub int `json:"busyunsub,omitempty"`
@@ -113,6 +118,9 @@ func runCase(cs CaseSpec) (viols []string, classes map[string]int) {
 		smu.Lock()
 		st := bySubj[p.Subject]
 		smu.Unlock()
+		if cs.DropMidPre && p.Subject == "call.t.drop0.x" && p.Reply != "" {
+			srv.Publish(p.Reply, []byte(fmt.Sprintf(`timeout:"%d"`, preExtend)))
+		}
 		if st == nil || p.Reply == "" {
 			return
 		}
@@ -195,6 +203,10 @@ func runCase(cs CaseSpec) (viols []string, classes map[string]int) {
 		if fitsForSure && err != nil {
 			viols = append(viols, fmt.Sprintf("Subscribe with a namespace of %d bytes fits a control line but returned %v", len(ns), err))
 		}
+	}
+	if cs.DropMid > 0 {
+		classes["drop_with_requests_pending"]++
+		return append(viols, dropMidFlight(srv, cl, closedCh, cs.DropMid, cs.DropMidPre)...), classes
 	}
 	// requests, all in flight together
 	var wg sync.WaitGroup
@@ -404,6 +416,74 @@ func runCase(cs CaseSpec) (viols []string, classes map[string]int) {
 	return viols, classes
 }
 
+// dropMidFlight: n requests are pending (nobody answers; the first gets a
+// timeout pre-response if pre) when the server drops the connection. The
+// adapter is not closed. Every request completes exactly once, by the time its
+// (extended) timeout has elapsed.
+func dropMidFlight(srv *Server, cl *resnats.Client, closedCh chan error, n int, pre bool) (viols []string) {
+	var mu sync.Mutex
+	comps := make([][]string, n)
+	for i := 0; i < n; i++ {
+		i := i
+		cl.SendRequest(fmt.Sprintf("call.t.drop%d.x", i), []byte(`{}`), func(_ string, data []byte, err error) {
+			mu.Lock()
+			comps[i] = append(comps[i], kindOf(err))
+			mu.Unlock()
+		})
+	}
+	// the server has seen every request (and the adapter the pre-response)
+	for w := time.Now(); time.Since(w) < 2*time.Second; {
+		pubs, _, _, _, _ := srv.Snapshot()
+		seen := 0
+		for _, p := range pubs {
+			if strings.HasPrefix(p.Subject, "call.t.drop") {
+				seen++
+			}
+		}
+		if seen >= n {
+			break
+		}
+		time.Sleep(time.Millisecond)
+	}
+	if !srv.Barrier(2 * time.Second) {
+		return []string{"INCONCLUSIVE barrier"}
+	}
+	srv.Drop()
+	select {
+	case <-closedCh:
+	case <-time.After(3 * time.Second):
+		viols = append(viols, "the server connection was dropped but the closed handler was not invoked within 3s")
+	}
+	wait := reqTimeout + 700*time.Millisecond
+	if pre {
+		wait = time.Duration(preExtend)*time.Millisecond + 700*time.Millisecond
+	}
+	deadline := time.Now().Add(wait)
+	for time.Now().Before(deadline) {
+		mu.Lock()
+		done := true
+		for _, c := range comps {
+			if len(c) == 0 {
+				done = false
+			}
+		}
+		mu.Unlock()
+		if done {
+			break
+		}
+		time.Sleep(5 * time.Millisecond)
+	}
+	time.Sleep(50 * time.Millisecond)
+	mu.Lock()
+	defer mu.Unlock()
+	for i, c := range comps {
+		if len(c) != 1 {
+			viols = append(viols, fmt.Sprintf("request %d was pending when the server dropped the connection and completed %d times %v by the time its timeout had elapsed, expected exactly once", i, len(c), c))
+		}
+	}
+	return viols
+}
+
 // busyUnsubscribe: the listener is held inside a callback while n events for
 // another subscription arrive and queue up in the adapter; that subscription is
 // unsubscribed; the listener is released. At most one event (one the listener
@@ -525,6 +605,10 @@ func genCase(t *rapid.T) CaseSpec {
 		cs.BusyUnsub = rapid.IntRange(1, 20).Draw(t, "nqueued")
 	}
 	cs.Drop = rapid.IntRange(0, 2).Draw(t, "drop") == 0
+	if rapid.IntRange(0, 7).Draw(t, "dropmid") == 0 {
+		cs.DropMid = rapid.IntRange(1, 5).Draw(t, "dropmidn")
+		cs.DropMidPre = rapid.Bool().Draw(t, "dropmidpre")
+	}
 	if rapid.IntRange(0, 3).Draw(t, "sublong") == 0 {
 		cs.SubLen = rapid.IntRange(4080, 4100).Draw(t, "sublen")
 	}
